@@ -45,6 +45,7 @@ from typing import (
 )
 
 from .._dns import DNSPointer, DNSQuestion, DNSQuestionType
+from .._handlers.answers import _name_is_encodable
 from .._logger import log
 from .._protocol.outgoing import DNSOutgoing
 from .._record_update import RecordUpdate
@@ -245,6 +246,17 @@ def _group_ptr_queries_with_known_answers(
     return [query_bucket.out for query_bucket in query_buckets]
 
 
+def _is_writable_known_answer(record: Any) -> bool:
+    """Check that a cached pointer can be written into a query.
+
+    A pointer received with invalid UTF-8 in its target is decoded with
+    replacement characters and can end up with labels that are too long
+    to be written again; listing it as a known answer would raise
+    NamePartTooLongException out of the query scheduler's timer.
+    """
+    return _name_is_encodable(record.alias)
+
+
 def generate_service_query(
     zc: 'Zeroconf',
     now_millis: float_,
@@ -263,7 +275,7 @@ def generate_service_query(
         known_answers = {
             record
             for record in cache.get_all_by_details(type_, _TYPE_PTR, _CLASS_IN)
-            if not record.is_stale(now_millis)
+            if not record.is_stale(now_millis) and _is_writable_known_answer(record)
         }
         if not qu_question and question_history.suppresses(question, now_millis, known_answers):
             log.debug("Asking %s was suppressed by the question history", question)
